@@ -152,8 +152,28 @@ func (in *instrumenter) rewriteMapRange(rs *ast.RangeStmt) ast.Stmt {
 	pos := in.fset.Position(rs.For)
 	in.maps = append(in.maps, Site{ID: len(in.maps), File: in.file, Line: pos.Line, Kind: "maprange", Func: in.fn})
 	if rs.Tok == token.ASSIGN {
-		in.err = fmt.Errorf("%s:%d: range over map with '=' assignment is not supported by the instrumenter", in.file, pos.Line)
-		return nil
+		// `for k, v = range m { body }` (existing variables or any assignable operands):
+		//	{ simM := m; for _, simK := range simrt.MapKeys(simM) { simV, simOK := simM[simK]; if !simOK { continue }; k = simK; v = simV; body } }
+		pre := []ast.Stmt{
+			&ast.AssignStmt{Lhs: []ast.Expr{ast.NewIdent("simV"), ast.NewIdent("simOK")}, Tok: token.DEFINE,
+				Rhs: []ast.Expr{&ast.IndexExpr{X: ast.NewIdent("simM"), Index: ast.NewIdent("simK")}}},
+			&ast.IfStmt{Cond: &ast.UnaryExpr{Op: token.NOT, X: ast.NewIdent("simOK")},
+				Body: &ast.BlockStmt{List: []ast.Stmt{&ast.BranchStmt{Tok: token.CONTINUE}}}},
+			&ast.AssignStmt{Lhs: []ast.Expr{ast.NewIdent("_")}, Tok: token.ASSIGN, Rhs: []ast.Expr{ast.NewIdent("simV")}},
+		}
+		if rs.Key != nil {
+			pre = append(pre, &ast.AssignStmt{Lhs: []ast.Expr{rs.Key}, Tok: token.ASSIGN, Rhs: []ast.Expr{ast.NewIdent("simK")}})
+		}
+		if rs.Value != nil {
+			pre = append(pre, &ast.AssignStmt{Lhs: []ast.Expr{rs.Value}, Tok: token.ASSIGN, Rhs: []ast.Expr{ast.NewIdent("simV")}})
+		}
+		loop := &ast.RangeStmt{Key: ast.NewIdent("_"), Value: ast.NewIdent("simK"), Tok: token.DEFINE,
+			X:    &ast.CallExpr{Fun: &ast.SelectorExpr{X: ast.NewIdent("simrt"), Sel: ast.NewIdent("MapKeys")}, Args: []ast.Expr{ast.NewIdent("simM")}},
+			Body: &ast.BlockStmt{List: append(pre, rs.Body.List...)}}
+		return &ast.BlockStmt{List: []ast.Stmt{
+			&ast.AssignStmt{Lhs: []ast.Expr{ast.NewIdent("simM")}, Tok: token.DEFINE, Rhs: []ast.Expr{rs.X}},
+			loop,
+		}}
 	}
 	mname := ast.NewIdent("simM")
 	keyIdent := ast.NewIdent("simK")
@@ -206,12 +226,17 @@ func (in *instrumenter) stmts(list []ast.Stmt) {
 			continue
 		}
 		if ls, ok := s.(*ast.LabeledStmt); ok {
-			if rs, ok := ls.Stmt.(*ast.RangeStmt); ok && in.info != nil {
-				if tv, ok := in.info.Types[rs.X]; ok {
-					if _, isMap := tv.Type.Underlying().(*types.Map); isMap {
-						in.err = fmt.Errorf("%s: labeled range over map is not supported by the instrumenter", in.file)
-					}
+			if rs, ok := ls.Stmt.(*ast.RangeStmt); ok {
+				// a labeled range over a map: the label moves onto the rewritten loop inside the block, where
+				// `break L` and `continue L` of the body still find it
+				in.stmt(rs)
+				if repl := in.rewriteMapRange(rs); repl != nil {
+					blk := repl.(*ast.BlockStmt)
+					ls.Stmt = blk.List[len(blk.List)-1]
+					blk.List[len(blk.List)-1] = ls
+					list[i] = blk
 				}
+				continue
 			}
 		}
 		in.stmt(s)
